@@ -570,7 +570,7 @@ fn c03_one(svc: &VarlinkService, seen: &Arc<Mutex<Vec<Seen>>>, req: &Value) -> (
 }
 
 fn c03(args: &Args) -> ! {
-    let mut rep = Report::new("C03", "every service configuration (every subset of size<=3 of a 7-name pool with shared prefixes/hyphens/digits/upper case, plus the generated org.verif.t) x every method string built from every pool/unregistered name (n.M, n, n., .n, n..M, n.M.N, '', '.', 'M', service methods) x parameters {absent, {}, nested} x flags {none, more, oneway, upgrade}; plus GetInfo and GetInterfaceDescription of every name per configuration; non-trivial = distinct (configuration, request)");
+    let mut rep = Report::new("C03", "every service configuration (every subset of size<=3 of a 7-name pool with shared prefixes/hyphens/digits/upper case, plus the generated org.verif.t) x every method string built from every pool/unregistered name (n.M, n, n., .n, n..M, n.M.N, '', '.', 'M', service methods) x parameters {absent, {}, nested} x flags {none, more, oneway, upgrade}; plus GetInfo and GetInterfaceDescription of every name per configuration; a generated interface whose definition file has CRLF line ends must be described verbatim; non-trivial = distinct (configuration, request)");
     let replay = args.replay_case();
     // configurations
     let mut cfgs: Vec<Vec<usize>> = vec![vec![]];
@@ -877,6 +877,27 @@ fn c03(args: &Args) -> ! {
         let replies = parse_replies(&run.out).unwrap_or_default();
         if replies.len() != 1 || !Pred::err("org.varlink.service.InvalidParameter", ParamSpec::Any).matches(&replies[0]) {
             rep.violation("C03/getinterfacedescription", &format!("no parameters: got {:?}", replies), case);
+        }
+    }
+    // --- a generated interface whose definition *file* has CRLF line ends (and one lone LF), generated by the build-script
+    // front-end: its description is the file's text, byte for byte
+    if args.shard == 0 && replay.as_ref().map(|c| c.get("crlf").is_some()).unwrap_or(true) {
+        let svc = VarlinkService::new("V", "P", "1", "u", vec![Box::new(vts::org_verif_crlf::new(Box::new(vts::CrlfImpl)))]);
+        let seen = Arc::new(Mutex::new(Vec::new()));
+        let case = json!({"crlf": "description"});
+        rep.eval(Some(&case.to_string()));
+        let (run, _) = c03_one(&svc, &seen, &json!({"method": "org.varlink.service.GetInterfaceDescription", "parameters": {"interface": "org.verif.crlf"}}));
+        let replies = parse_replies(&run.out).unwrap_or_default();
+        let got = replies.get(0).and_then(|r| r["parameters"]["description"].as_str()).unwrap_or("<no description>").to_string();
+        if got != vts::CRLF_IDL {
+            rep.violation("C03/getinterfacedescription/not-verbatim", &format!("the definition file is {:?} but GetInterfaceDescription returned {:?}", vts::CRLF_IDL, got), case);
+        }
+        let case = json!({"crlf": "routing"});
+        rep.eval(Some(&case.to_string()));
+        let (run, _) = c03_one(&svc, &seen, &json!({"method": "org.verif.crlf.Ping", "parameters": {"ping": "x"}}));
+        let replies = parse_replies(&run.out).unwrap_or_default();
+        if replies != vec![json!({"parameters": {"pong": "x"}})] {
+            rep.violation("C03/misrouted", &format!("org.verif.crlf.Ping gave {:?}", replies), case);
         }
     }
     rep.finish(args)
